@@ -127,6 +127,17 @@ func (x *Exec) lookupIdent(st *State, fr *Frame, name string, sc *scope) (Val, e
 		return x.bindingValDeref(st, sc, c)
 	}
 	if fr != nil {
+		if sc.inOld {
+			// old(x) of a captured variable: what its cell held on entry (its name may since have been
+			// rebound to a newer value of this call)
+			for i, fv := range fr.fn.FreeVars {
+				if fv.Name() == name && i < len(fr.freevars) {
+					if v, err := x.bindingValDeref(st, sc, fr.freevars[i]); err == nil {
+						return v, nil
+					}
+				}
+			}
+		}
 		if sc.preferLocal {
 			// the variable's current value: its cell when its address is taken, its latest
 			// definition when it was reassigned
